@@ -11,7 +11,8 @@ import numpy as np
 
 from .. import par
 from .. import spectral as S
-from ..qlib import lib, q_from_float, q_to_float, omul, ofro, osvals, units
+from .. import exactfam as E
+from ..qlib import lib, q_from_float, q_to_float, omul, oherm, ofro, osvals, units
 
 
 def leading_deficient(A):
@@ -43,6 +44,18 @@ def measure(rec, cls, detail, A):
         return
     scale = max(ofro(A), 1e-300)
     rec.units(t, "OrthonormalQ", S.ortho_units(Qf))
+    if "graded" in cls:
+        # recorded finding: the contraction of the real QR loses orthonormality in proportion to the conditioning of the
+        # leading column blocks (the continuous form of the rank-deficient finding).  A second, weaker clause still bounds
+        # the loss by eps * cond, so that a change which makes it eps * cond^2 (Gram-matrix shortcuts) is reported.
+        cmax = 1.0
+        for j in range(1, k + 1):
+            sv = osvals(A[:, :j])
+            cmax = max(cmax, float(sv[0] / max(sv[-1], 1e-300)))
+        G = omul(oherm(Qf), Qf)
+        for i in range(k):
+            G[i, i, 0] -= 1.0
+        rec.lgle(t, "OrthonormalQUpToConditioning", float(np.max(np.abs(G))), 2.0 ** -52 * cmax * 4 * m, 6 * 64)
     low = 0.0
     for i in range(k):
         for j in range(min(i, n)):
@@ -105,6 +118,21 @@ def _structure_job(args):
         m, n = int(rng.integers(1, 7)), int(rng.integers(1, 7))
         G = rng.standard_normal((m, n, 4))
         measure(rec, ("wide-" if m < n else "") + "gaussian", {"shape": [m, n], "A": G.tolist(), "structure": "gaussian"}, G)
+    # ill-conditioned (graded singular values, cond 2^10 .. 2^40) tall-skinny, square and wide inputs: orthonormality of Q
+    # must not depend on the conditioning (a Gram-matrix based shortcut squares it)
+    for (m, n) in ((8, 2), (12, 3), (9, 1), (16, 4), (5, 5), (3, 6)) + (((24, 5), (40, 3)) if thorough else ()):
+        k = min(m, n)
+        for ce in (10, 20, 26, 40):
+            sv = [2.0 ** (-ce * i / max(k - 1, 1)) for i in range(k)]
+            Uo, _ = np.linalg.qr(rng.standard_normal((m, k)))
+            W = E.ulib(n)[int(rng.integers(0, len(E.ulib(n))))][1] if n <= 6 else None
+            D = np.zeros((k, n, 4))
+            for i in range(k):
+                D[i, i, 0] = sv[i]
+            Uq = np.zeros((m, k, 4))
+            Uq[..., 0] = Uo
+            A = omul(omul(Uq, D), oherm(W))
+            measure(rec, ("wide-" if m < n else "") + "graded-ill-conditioned", {"shape": [m, n], "cond": "2^%d" % ce, "structure": "real orthonormal U x graded diag x exactly unitary V^H"}, A)
     return rec.events, rec.info
 
 
